@@ -9,6 +9,7 @@ import (
 	"strings"
 
 	neatmath "github.com/yaricom/goNEAT/v4/neat/math"
+	"github.com/yaricom/goNEAT/v4/neat/network"
 )
 
 func init() {
@@ -110,8 +111,27 @@ func opActScalar(g *G) (interface{}, []uint64, int, interface{}) {
 	ys := make([]uint64, 0, len(xs))
 	errs := ""
 	var errVal uint64
+	// auxiliary parameters (NNode.Params; the closed-form definitions of the scalar activations do not use them) and, in a
+	// third of the cases, the call path of the standard solver: network.ActivateNode on a hand-built node
+	var aux []float64
+	if g.chance(0.5) {
+		aux = make([]float64, 1+g.intn(4))
+		for i := range aux {
+			aux[i] = (g.f64() - 0.3) * []float64{1, 3, 100}[g.intn(3)]
+		}
+	}
+	viaNode := g.chance(0.33)
 	for _, x := range xs {
-		y, err := neatmath.NodeActivators.ActivateByType(x, nil, neatmath.NodeActivationType(t))
+		var y float64
+		var err error
+		if viaNode {
+			nd := &network.NNode{Id: 1, NeuronType: network.HiddenNeuron, ActivationType: neatmath.NodeActivationType(t), ActivationSum: x, Params: aux}
+			if err = network.ActivateNode(nd, neatmath.NodeActivators); err == nil {
+				y = nd.Activation
+			}
+		} else {
+			y, err = neatmath.NodeActivators.ActivateByType(x, aux, neatmath.NodeActivationType(t))
+		}
 		if err != nil {
 			errs = actErrClass(err)
 			errVal = bits(y)
